@@ -283,7 +283,8 @@ specification `LogSpec`: status only moves forward (non-empty prefix of `READY,R
 submitted jobs reported, (when the scenario is complete) every submitted job reported, reported
 statuses terminal, and for every gathered job away from a tie: started after the deadline ⇒
 CANCELLED via CANCELLING (CANCELLING read if the status is read again), running at the deadline ⇒
-the same and CANCELLING read, finished before the deadline / no timeout ⇒ DONE and never read
+the same and CANCELLING read (if the evaluator's loop ran between the deadline and its return),
+finished before the deadline / no timeout ⇒ DONE and never read
 CANCELLING; value kept. -/
 theorem C14_checker (o : Obs) : checkStatusLog o = true ↔ LogSpec o :=
   checkStatusLog_iff o
@@ -343,10 +344,10 @@ started after the deadline reported DONE; a status sequence that goes CANCELLING
 example : checkStatusLog (obsOf (reach 2 false specsA opsA) true) = true := by decide +kernel
 def badLate : JobObs :=
   { log := [.ready, .running, .done], start := 4, ret := 6, natEnd := 6, deadline := some 3, saw := false,
-    pollsAgain := true, tie := false, gathered := true, valueKept := true }
+    pollsAgain := true, loopRan := true, tie := false, gathered := true, valueKept := true }
 def badOrder : JobObs :=
   { log := [.ready, .running, .cancelling, .done], start := 0, ret := 1, natEnd := 1, deadline := none,
-    saw := false, pollsAgain := true, tie := false, gathered := false, valueKept := true }
+    saw := false, pollsAgain := true, loopRan := true, tie := false, gathered := false, valueKept := true }
 example : checkStatusLog { jobs := [badLate], results := [0], complete := true } = false := by decide +kernel
 example : checkStatusLog { jobs := [badOrder], results := [], complete := false } = false := by decide +kernel
 
